@@ -61,6 +61,8 @@ def run(ctx):
     # ---- R1 capture is a CAS -------------------------------------------------
     r1 = ctx.rule('R1', 'capturing a job is a compare-and-swap on the value '
                   'that was read', 'GD')
+    from mstatic.rules import shared as _shc
+    _shc.cas_primitive_reports_loss(ctx, r1)
     cj = prog.func(DS + '._capture_scheduled_job')
     cfg = ctx.cfg(cj)
     up = U.calls_in(cfg, 'update_scheduled_job')
@@ -366,6 +368,7 @@ def run(ctx):
                    '(e.g. the delete of a finished job)', 'GD (handlers)')
     from mstatic.rules import shared as _sh
     _sh.retry_not_defeated(ctx, r11)
+    _sh.retried_functions_rerunnable(ctx, r11)
 
     # ---- R12 the polling threads and batches survive a failing item -------------------
     r12 = ctx.rule('R12', 'a failing iteration does not end a polling '
